@@ -53,7 +53,8 @@ func streamC02(c *Ctx) {
 			g := NewGen(c.Rng, dm)
 			h := NewHistGen(g, 1, 3)
 			h.Colls = []string{"T"}
-			idxSets := [][]string{{}, {indexable[g.pick(len(indexable))]}, {indexable[g.pick(len(indexable))]}, [][]string{{"x", "xy"}, {"n", "n.a"}, {"y", "x"}}[g.pick(3)]}
+			h.Focus = []string{indexable[g.pick(len(indexable))], indexable[g.pick(len(indexable))]}
+			idxSets := [][]string{{}, {h.Focus[0]}, {h.Focus[1]}, [][]string{{"x", "xy"}, {"n", "n.a"}, {h.Focus[0], h.Focus[1]}}[g.pick(3)]}
 			when := []int{g.pick(3), g.pick(3), g.pick(3), g.pick(3)} // 0 before, 1 between, 2 after the writes
 			lines := []J{}
 			for _, t := range twins {
